@@ -306,6 +306,10 @@ class GroupBase:
         indices_found = []
         # `indices_found` contains found indices returned from all models of this group
         for model in self.models.values():
+            # a model that does not have one of the fields holds none of the devices looked for
+            if not all(key in model.__dict__ for key in keys):
+                indices_found.append([[default]] * n_pair)
+                continue
             indices_found.append(model.find_idx(keys, values, allow_none=True, default=default, allow_all=True))
 
         # --- find missing pairs ---
